@@ -372,9 +372,16 @@ class WorldFlow(Flow):
             return self._map(state, f)
         return self.branch_fact(test, pol, state)
 
+    # regexes (on the normalised test text) of uninterpreted tests whose outcome is worth remembering as a
+    # control-dependence fact; everything else is dropped, which keeps the number of worlds small
+    FACT_PATTERNS = (r"len\(paths\)", r"get_solution\(", r"edges_to_ignore", r"self\.k\b")
+
     def branch_fact(self, test, pol, state):
         """Record the outcome of an otherwise uninterpreted test as a fact '?<test>' -> {'True'|'False'}."""
-        key = "?" + norm(test)
+        txt = norm(test)
+        if not any(re.search(p, txt) for p in self.FACT_PATTERNS):
+            return state
+        key = "?" + txt
 
         def f(w: World):
             cur = w.get(key)
